@@ -150,8 +150,10 @@ def check_beams(ctx, op, rng):
     gotu = op.twoStepFresnel(U0, lam, d1, d1, zu)
     wu = dict(base, m=1.0, z=zu)
     ctx.case("gauss_two_step_unit_mag", key=("g2u", N, lam, d1, w0, x0, zu), nontrivial=True, sample=wu)
-    ctx.close("twoStep_unit_mag_vs_gaussian_beam", gotu, refu, 1e-6, "twoStepFresnel:analytic_beam:m=1" + (":z<0" if zu < 0 else ":z>0"), wu)
-    ctx.close("twoStep_unit_mag_vs_AS", gotu, op.angularSpectrum(U0, lam, d1, d1, zu), 1e-6, "twoStepFresnel_vs_angularSpectrum:m=1" + (":z<0" if zu < 0 else ":z>0"), wu)
+    # discretisation error of the two half steps: measured up to 1.0e-6 for the narrowest beams on N = 128 (median 8e-11);
+    # a wrong orientation / conjugation gives an error of order one
+    ctx.close("twoStep_unit_mag_vs_gaussian_beam", gotu, refu, 2e-5, "twoStepFresnel:analytic_beam:m=1" + (":z<0" if zu < 0 else ":z>0"), wu)
+    ctx.close("twoStep_unit_mag_vs_AS", gotu, op.angularSpectrum(U0, lam, d1, d1, zu), 2e-5, "twoStepFresnel_vs_angularSpectrum:m=1" + (":z<0" if zu < 0 else ":z>0"), wu)
     # --- two-step on the same output grid
     ctx.count("cross_pairs")
     got2 = pure_call(ctx, "twoStepFresnel", op.twoStepFresnel, U0, lam, d1, d1 * m, zm)
